@@ -3,6 +3,8 @@ import Req.Pool.Dispatch
 import Req.Pool.Tls
 import Req.Pool.TlsFamily
 import Req.Pool.TlsPaths
+import Req.Pool.TlsOrder
+import Req.Pool.AlpnSeq
 import Req.Pool.ProxyDispatch
 import Req.Pool.AltSvcState
 import Req.Pool.AltSvcClient
@@ -205,9 +207,24 @@ def sGiven : Option Given → String
 
 def fpCopiedFull : List FpField := [.serverName, .rootCAs, .insecureSkipVerify, .certificates, .nextProtos]
 
+def pHookOp : String → Option HookOp
+  | "Hfp" => some .fingerprint
+  | "Huser" => some .userHandshake
+  | "Hnone" => some .noHandshake
+  | "Hdial1" => some (.dialTLS true)
+  | "Hdial0" => some (.dialTLS false)
+  | _ => none
+
+/-- setter sequences of `c12path`: TLS setters (`pOp`) and hook setters (`H…`) in any order -/
+def pPOps (s : String) : Option (List POp) :=
+  if s == "-" then some [] else (s.splitOn ",").mapM fun t =>
+    if t.startsWith "H" then (pHookOp t).map .hook else (pOp t).map .tls
+
 /-- `c12path <path> <dialTLS> <hs> <trustOK> <onlyH1> <force> <host> <issuer> <names> <acceptableCAs>
-<serverALPN> <ops>`: a NEW connection on dial path `<path>` of a client with the hooks
-`<dialTLS>`/`<hs>` after the TLS setters `<ops>`: who governs the handshake, what the hook is
+<serverALPN> <ops>`: a NEW connection on dial path `<path>` of a client after the setter
+sequence `<ops>` (TLS setters and hook setters `Hfp|Huser|Hnone|Hdial1|Hdial0` interleaved,
+run by the pointer-level `Req.Pool.TLS.prun`), then the hook setters `<hs>` / `<dialTLS>`
+(when not `-` / `0`): who governs the handshake, what the hook is
 handed, and — when no user function governs — the SNI, the offered ALPN list (under the
 fingerprint the preset's list), the verdict against a server certificate of CA
 `<issuer>` for `<names>`, the client certificate presented, and whether `dialConn` hands the
@@ -216,10 +233,18 @@ trusts per `<trustOK>`, offers no ALPN) only yields its verdict. -/
 def lanePathWith (copied : List FpField) : List String → String
   | [path, dial, hs, trust, onlyH1, force, host, issuer, names, acc, srvAlpn, ops] =>
     match pPath path, pBool dial, pHs hs, pBool trust, pBool onlyH1, pForce force, host.toNat?, issuer.toNat?,
-      pDigits names, pDigits acc, pAlpns srvAlpn, pOps ops with
-    | some p, some d, some hk, some tr, some o, some f, some h, some iss, some ns, some acc, some sa, some os =>
-      let hooks : Hooks := ⟨d, hk⟩
-      let read := run (some initialCfg) os
+      pDigits names, pDigits acc, pAlpns srvAlpn, pPOps ops with
+    | some p, some d0, some hk0, some tr, some o, some f, some h, some iss, some ns, some acc, some sa, some os =>
+      let tail : List POp :=
+        (match hk0 with
+         | some .fingerprint => [.hook .fingerprint]
+         | some .user => [.hook .userHandshake]
+         | none => []) ++ (if d0 then [.hook (.dialTLS true)] else [])
+      let fin := prun .atHandshake PClient.init (os ++ tail)
+      let hooks : Hooks := hooksOf fin
+      let d := hooks.dialTLS
+      let hk := hooks.handshake
+      let read := readFor .atHandshake fin p
       match governs hooks p with
       | .userDialTLS => s!"gov=dial given={sGiven (dialTLSGiven h p)} accept={if tr && ns.contains h then 1 else 0}"
       | .userHandshake =>
@@ -298,6 +323,47 @@ def laneAlpn : List String → String
       s!"offer={offer} quic={if quic then 1 else 0} route={sRoute (route cfg req net)}"
     | _, _, _, _, _, _ => "bad-op"
   | _ => "bad-op"
+
+section alpnseq
+open Req.Pool.Alpn
+
+def pAOp (t : String) : Option AOp :=
+  if t == "pn" then some (.setProtos none)
+  else if t.startsWith "p:" then (pAlpns (t.drop 2).toString).map fun l => .setProtos (some l)
+  else if t == "uf" then some (.force none)
+  else if t == "f1" then some (.force (some .h1))
+  else if t == "f2" then some (.force (some .h2))
+  else if t == "f3" then some (.force (some .h3))
+  else if t == "e3" then some .enableH3
+  else if t == "fork" then some .fork
+  else if t.startsWith "sw" then (t.drop 2).toString.toNat?.map .switch
+  else if t == "r0" then some (.request false)
+  else if t == "r1" then some (.request true)
+  else none
+
+/-- `c12alpnseq <serverALPN> <h3Up> <ops>`: a family of clients (from `C()`) through setters,
+mode switches, `Clone` and requests (`Req.Pool.Alpn.astep`, the code's `assignNil`); every
+request makes a NEW connection to an origin whose certificate is trusted. Per request
+`offer=<list|none>;quic=<0|1>;route=<…>` (as lane `c12alpn`), comma separated. -/
+def laneAlpnSeq : List String → String
+  | [srvAlpn, h3Up, ops] =>
+    match pAlpns srvAlpn, pBool h3Up, (if ops == "-" then some [] else (ops.splitOn ",").mapM pAOp) with
+    | some sa, some up, some os =>
+      let net : Net := ⟨sa, true, up, true, false, .fail, false, false, false⟩
+      let (_, out) := os.foldl (fun (acc : World × List String) op =>
+        let w := acc.1
+        let (w', o) := astep .assignNil w op
+        match op, o, w.members[w.cur]? with
+        | .request h1, some offer, some m =>
+          let cfg := cfgOf w.arrays m
+          let quic := m.force == some .h3
+          let offerS := if quic && !up then "none" else sAlpns offer
+          (w', acc.2 ++ [s!"offer={offerS};quic={if quic then 1 else 0};route={sRoute (route cfg ⟨.https, h1⟩ net)}"])
+        | _, _, _ => (w', acc.2)) (World.init, [])
+      if out.isEmpty then "-" else ",".intercalate out
+    | _, _, _ => "bad-op"
+  | _ => "bad-op"
+end alpnseq
 
 def pSetting : String → Option Setting
   | "f1" => some .forceH1
@@ -389,6 +455,7 @@ def lanes : List (String × (List String → String)) := [
   ("c12proxy", laneProxy),
   ("c12offer", laneOffer),
   ("c12alpn", laneAlpn),
+  ("c12alpnseq", laneAlpnSeq),
   ("c12altsm", laneAltSm)
 ]
 
